@@ -1,6 +1,6 @@
------------------------------ MODULE ProtoJudge -----------------------------
+----------------------------- MODULE PayJudge ------------------------------
 (***************************************************************************)
-(* Trace judge: drives the ProtoMon monitor with an ndjson trace recorded   *)
+(* Trace judge: drives the PayMon monitor with an ndjson trace recorded   *)
 (* from the real code (env TRACE).  Runs are separated by `reset` events;  *)
 (* the verdict of every run is collected and printed as one JSON line      *)
 (* ("JUDGE", json) when the trace is exhausted.  A violation is never a    *)
@@ -9,17 +9,14 @@
 EXTENDS Naturals, Integers, Sequences, TLC, Json, IOUtils
 
 Rec == ndJsonDeserialize(IOEnv.TRACE)
-Mon == INSTANCE ProtoMon
+Mon == INSTANCE PayMon
 
 VARIABLES l, m, run, viol, nruns, badAt, fin, cmd, badCmd
 vars == <<l, m, run, viol, nruns, badAt, fin, cmd, badCmd>>
 
 Init == l = 1 /\ m = Mon!Init /\ run = -1 /\ viol = << >> /\ nruns = 0 /\ badAt = 0 /\ fin = FALSE /\ cmd = "" /\ badCmd = ""
 
-Flush(v) == IF m.bad # "none"
-              THEN Append(v, [run |-> run, why |-> m.bad, at |-> badAt, cmd |-> badCmd])
-                   \o [k \in 1..Len(m.more) |-> [run |-> run, why |-> m.more[k], at |-> badAt, cmd |-> badCmd]]
-              ELSE v
+Flush(v) == IF m.bad # "none" THEN Append(v, [run |-> run, why |-> m.bad, at |-> badAt, cmd |-> badCmd]) ELSE v
 
 Next ==
   \/ /\ l <= Len(Rec)
